@@ -444,6 +444,10 @@ def judge_peer_streams(ctx, todo, kind, tag, nontrivial=True):
             ctx.mismatch(kind, dict(chunks=chunks), io_out, mo)
         if judge_recv_exception(ctx, io_out, dict(chunks=chunks)):
             continue
+        if io_out[0] == 0 and not VALID_CODE.match(io_out[1]):
+            report(ctx, 'c17:non-ascii-reply-code-accepted', dict(chunks=chunks),
+                   'Reply.recv returned code %r (not three ASCII digits) for %r instead of raising BadReply' % (io_out[1], data[:80]))
+            continue
         ref = ref_parse(data)
         exp = {'lost': 3, 'bad': 1, 'badcode': 2, 'ok': 0}[ref[0]]
         if io_out[0] != exp or (exp == 0 and (io_out[1] != ref[1] or io_out[3] != ref[3])):
@@ -888,6 +892,65 @@ def run_continuation(ctx, exhaustive_len):
     ctx.sample(dict(kind='continuation', malformed=[b for _, sh in MALFORMED_SHAPES for b in sh][:6], then=GOOD_SEQS[1], count=len(cases)))
 
 
+# ------------------------------------------------------------ non-ASCII decimal digits in the code position
+# families of Unicode decimal digits (str patterns call them \d; the wire pattern is a bytes pattern: ASCII only)
+DIGIT_FAMILIES = [('fullwidth', 0xFF10), ('arabic-indic', 0x0660), ('devanagari', 0x0966), ('math-bold', 0x1D7CE), ('ext-arabic-indic', 0x06F0)]
+CODE_POSITIONS = [(0,), (1,), (2,), (0, 1), (1, 2), (0, 2), (0, 1, 2)]
+
+
+def unicode_code(code, family_base, positions):
+    return ''.join(chr(family_base + int(d)) if i in positions else d for i, d in enumerate(code))
+
+
+def run_unicode_codes(ctx):
+    """a PEER sends reply lines whose code position holds non-ASCII decimal digits in 1, 2 or all 3 places
+    (first digit valid / invalid), single- and multi-line: never a reply -- BadReply (the reference parser says
+    what is consumed); what Reply.recv returns always has a code of three ASCII digits.  Also Reply(code=..) and
+    the code setter with such strings against the model of code_pattern (a STR pattern: noted, not judged)."""
+    rng = ctx.rng
+    todo = []
+    n = 0
+    for fam, base in DIGIT_FAMILIES:
+        for pos in CODE_POSITIONS:
+            for code in ['250', '550', '354', '650', '050']:
+                u = unicode_code(code, base, pos)
+                shapes = [
+                    ('single', '%s ok\r\n' % u),
+                    ('single-tab', '%s\tok\r\n' % u),
+                    ('all-lines', '%s-a\r\n%s-b\r\n%s c\r\n' % (u, u, u)),
+                    ('first-line', '%s-a\r\n%s b\r\n' % (u, code)),
+                    ('later-line', '%s-a\r\n%s-b\r\n%s c\r\n' % (code, u, code)),
+                    ('last-line', '%s-a\r\n%s b\r\n' % (code, u)),
+                ]
+                for shape, text in shapes:
+                    ctx.count('unicode-code:%s:%s' % (fam, shape))
+                    data = text.encode('utf-8') + [b'250 2.0.0 next\r\n', b'', b'550-x\r\n550 y\r\n'][n % 3]
+                    n += 1
+                    for mode in ('whole', 'bytes', 'lines', 'random'):
+                        todo.append((data, segmentations(data, rng, mode)))
+                    if len(data) <= 40:
+                        todo += [(data, [data[:c], data[c:]]) for c in range(1, len(data))]
+    judge_peer_streams(ctx, todo, 'recv-unicode-code', 'ucode')
+    # the constructor / code setter: code_pattern is a str pattern
+    codes = []
+    for fam, base in DIGIT_FAMILIES:
+        for pos in CODE_POSITIONS:
+            for code in ['250', '650']:
+                codes.append(unicode_code(code, base, pos))
+    outs = ctx.model.batch('c17_ctor', [[c, 'Ok'] for c in codes])
+    accepted = 0
+    for c, o in zip(codes, outs):
+        io = impl_ctor(c, 'Ok')
+        mo = (o[0],) if o[0] != 0 else (0, U(o[1]), U(o[2]), U(o[3]), tuple(U(e) for e in o[4]))
+        ctx.evaluated(('ctor-ucode', c), nontrivial=True)
+        if io != mo:
+            ctx.mismatch('ctor-unicode-code', dict(code=c, text='Ok', op='build'), io, mo)
+        accepted += (io[0] == 0)
+    ctx.count('unicode-code:ctor-accepted', accepted)
+    ctx.note('Reply(code=...) / the code setter use the STR pattern ^[12345]\\d\\d$: %d of %d codes with non-ASCII decimal digits in position 2/3 are accepted '
+             '(e.g. %r); such a reply cannot be written (code.encode("ascii") raises before anything is buffered) - not a wire matter' % (accepted, len(codes), unicode_code('250', 0xFF10, (1, 2))))
+
+
 # ------------------------------------------------------------ line sizes around the read size
 READ_SIZE = 4096        # IO.raw_recv: socket.recv(4096)
 SIZE_SHAPES = ['single', 'long-first', 'long-middle', 'long-last']
@@ -1111,6 +1174,7 @@ def run(ctx):
                          'patterns: message_esc_pattern / esc_pattern / code_pattern against their models exhaustively over small alphabets, Reply(code, text) against reply_ctor; '
                          'malformed: every byte string over {2,5,-,SP,CR,LF,a,.} to the stated length plus structured bad-UTF-8/mixed-code/non-numeric replies; '
                          'orders: one Reply object under operation sequences (constructor / setters in every order / code changed across classes / ESC str, None, False / Reply.copy(pre-defined or built reply) / several writes of the same object), every write judged and read back; '
+                         'unicode-codes: peer-sent reply lines with fullwidth / Arabic-Indic / extended Arabic-Indic / Devanagari / mathematical-bold digits in 1, 2 or all 3 code positions (first digit valid or not), single- and multi-line (all lines / first / a later / the last line), all segmentations; '
                          'continuation: each malformed shape (non-reply line, also inside a multi-line reply; other code inside a multi-line reply; invalid UTF-8; two in a row; every string over the 8-letter alphabet to length 3 (5)) followed by 1-3 library-written replies and a trailer, read call after call from the SAME IO at whole/bytewise/linewise/random/every-cut segmentations; '
                          'sizes: replies whose longest wire line is L-d bytes, L in 1000,4095,4096,4097,5000,8192(,16384,65536), d in 0..3, ASCII and 3-byte characters, long line alone/first/middle/last, successor pipelined, read in 4096-byte reads (raw_recv), 4095, 4097, 1000 and cut before the CRLF; '
                          'every implementation call is guarded: an exception out of Reply()/send is c17:build-raises, out of Reply.recv (other than BadReply/ConnectionLost) c17:recv-raises-not-badreply; '
@@ -1122,6 +1186,7 @@ def run(ctx):
         ('esc-matrix', lambda: run_esc_matrix(ctx, 32 if ctx.quick else 1)),
         ('peer-esc', lambda: run_peer_esc(ctx, 500 if ctx.quick else 20000)),
         ('orders', lambda: run_orders(ctx, 1500 if ctx.quick else 12000, 16 if ctx.quick else 4)),
+        ('unicode-codes', lambda: run_unicode_codes(ctx)),
         ('continuation', lambda: run_continuation(ctx, 3 if ctx.quick else 5)),
         ('sizes', lambda: run_sizes(ctx, [1000, 4095, 4096, 4097, 5000, 8192] if ctx.quick else [1000, 4095, 4096, 4097, 5000, 8192, 16384, 65536], [16384, 65536] if ctx.quick else [], not ctx.quick)),
         ('structured', lambda: run_structured(ctx, 800 if ctx.quick else 4000)),
@@ -1173,6 +1238,9 @@ def replay(ctx, case):
         print('implementation:', out)
         if out[0] == 4:
             print('  -> raised %s: neither a reply nor BadReply [c17:recv-raises-not-badreply]' % out[1])
+            rc = 1
+        if out[0] == 0 and not VALID_CODE.match(out[1]):
+            print('  -> returned a reply whose code %r is not three ASCII digits instead of raising BadReply [c17:non-ascii-reply-code-accepted]' % out[1])
             rc = 1
         if ctx.model:
             print('model         :', model_recv_out(ctx.model.call('c17_recv', [buf, chunks]), chunks))
